@@ -23,6 +23,7 @@ type c07Case struct {
 	Path     string   `json:"path"`
 	Start    int      `json:"start"`
 	Multi    bool     `json:"multi,omitempty"` // spread the failing tag/object over several lines
+	Decoy    bool     `json:"decoy,omitempty"` // the same construct also stands earlier, where it is not executed
 }
 
 type c07Kind struct {
@@ -90,6 +91,11 @@ func (c *c07Case) build() (src string, failAt int, ok bool) {
 	}
 	var sb strings.Builder
 	sb.WriteString(gap())
+	if c.Decoy && !k.parseTime {
+		// a textually identical tag or object that is never executed must not attract the error
+		sb.WriteString("{% if false %}" + strings.ReplaceAll(k.src, "%NL%", "") + "{% endif %}")
+		sb.WriteString(gap())
+	}
 	for _, w := range c.Wrappers {
 		ws, found := c07Wrap[w]
 		if !found {
@@ -212,7 +218,7 @@ var c07Locate = hx.Define("c07.locate", func(c *c07Case, s *hx.Sub) *hx.Violatio
 		}
 	}
 	if len(c.Wrappers) >= 1 && wantLine > c.Start {
-		s.NTKey(fmt.Sprint(c.Kind, c.Wrappers, c.Gaps, c.Path != "", c.Start, c.Multi))
+		s.NTKey(fmt.Sprint(c.Kind, c.Wrappers, c.Gaps, c.Path != "", c.Start, c.Multi, c.Decoy))
 	}
 	if s.WantSample() {
 		s.Sample(map[string]any{"template": src, "error": msg, "line": err.LineNumber(), "path": err.Path()})
@@ -253,7 +259,7 @@ func TestC07(t *testing.T) {
 							ws[i] = wrappers[(i*3+layout+idx)%len(wrappers)]
 						}
 						gaps := [][]int{{0}, {1}, {0, 2, 1}, {3, 0}, {1, 1, 2}}[layout]
-						loc.Run(&c07Case{Kind: kind, Wrappers: ws, Gaps: gaps, Path: path, Start: start, Multi: layout%2 == 1})
+						loc.Run(&c07Case{Kind: kind, Wrappers: ws, Gaps: gaps, Path: path, Start: start, Multi: layout%2 == 1, Decoy: layout >= 3})
 					}
 				}
 			}
@@ -267,6 +273,7 @@ func TestC07(t *testing.T) {
 			Path:     rapid.SampledFrom([]string{"", "dir/t.html", "x.liquid"}).Draw(t, "path"),
 			Start:    rapid.SampledFrom([]int{0, 1, 37, 1000}).Draw(t, "start"),
 			Multi:    rapid.Bool().Draw(t, "multi"),
+			Decoy:    rapid.Bool().Draw(t, "decoy"),
 		}
 		if v := loc.Run(c); v != nil {
 			t.Fatalf("%s", v.Message)
